@@ -304,8 +304,12 @@ def check_after_process(ctx, verdict, fl, eng, d, has_refs, stats, old_terms=Non
     got = outputs(eng, True)
     # processing twice gives the same result (on a deep copy, so the sequence is not disturbed)
     twin = eng.copy()
-    with np.errstate(all="ignore"):
-        twin.process()
+    try:
+        with np.errstate(all="ignore"):
+            twin.process()
+    except Exception as ex:  # noqa  (the step that just succeeded fails when repeated)
+        verdict.add_violation("history:not-idempotent", f"processing a second time raises {type(ex).__name__}: {ex}", {"engine_fll": str(eng), "initial_engine_fll": fll0, "ops": list(ops), "inputs": [last(iv.value) for iv in eng.input_variables]})
+        return n + 1
     stats["idempotence_checks"] += 1
     if not same(outputs(twin, True), got):
         verdict.add_violation("history:not-idempotent", f"processing twice changed the outputs: {got} then {outputs(twin, True)}", {"engine_fll": str(eng), "inputs": [last(iv.value) for iv in eng.input_variables]})
@@ -315,8 +319,12 @@ def check_after_process(ctx, verdict, fl, eng, d, has_refs, stats, old_terms=Non
         fresh = E.build_engine(fl, d)
         for a, b in zip(fresh.input_variables, eng.input_variables):
             a.value = last(b.value)
-        with np.errstate(all="ignore"):
-            fresh.process()
+        try:
+            with np.errstate(all="ignore"):
+                fresh.process()
+        except Exception as ex:  # noqa  (the used engine processed these inputs without an error)
+            verdict.add_violation("history:trace", f"a freshly built engine raises {type(ex).__name__}: {ex} on inputs the used engine processed to {got}", {"engine_fll": str(eng), "initial_engine_fll": fll0, "ops": list(ops), "inputs": [last(iv.value) for iv in eng.input_variables]})
+            return n + 1
         stats["history_free_checks"] += 1
         if not same(outputs(fresh, True), got):
             verdict.add_violation("history:trace", f"outputs {got} differ from those of a freshly built engine {outputs(fresh, True)} for the same inputs", {"engine_fll": str(eng), "inputs": [last(iv.value) for iv in eng.input_variables]})
